@@ -558,7 +558,7 @@ pub fn main(opts: &Opts) -> Report {
         sample_roundtrip::<Complex>("Complex", &v, &mut rep);
         rep.eval();
     }
-    let rounds = opts.budget(16 * 12, 16 * 600);
+    let rounds = opts.budget(16 * 80, 16 * 3000);
     for k in 0..rounds {
         let h = rng.next();
         let mut r = Rng::new(h);
